@@ -573,7 +573,11 @@ fn sym_check(b: &ChessBoard, image: &Desc, f: fn(u8) -> u8, flipc: bool, dmap: f
         let im = map_move(&m, f, false);
         match (quiet(|| b.make_move(&m)), quiet(|| ib.make_move(&im))) {
             (Ok(Ok(n1)), Ok(Ok(n2))) => {
-                if dmap(&describe(&n1)) != describe(&n2) { bad.push("successor"); break }
+                // the move number advances after Black's moves, i.e. at the other parity in the colour-flipped game:
+                // it is not part of the mirrored state and is left out of the comparison
+                let (mut i1, mut i2) = (dmap(&describe(&n1)), describe(&n2));
+                if flipc { i1.full = 0; i2.full = 0 }
+                if i1 != i2 { bad.push("successor"); break }
                 if map_bb(n1.get_check_mask(), f) != n2.get_check_mask().bits() || status_flip(n1.get_status(), flipc) != n2.get_status() { bad.push("successor-derived"); break }
             }
             _ => { bad.push("successor-failed"); break }
